@@ -178,6 +178,17 @@ def enumerate_cases(tier):
                     yield "label-slices-on-short-sorted-axes", {"mode": "assign", "spec": {"dims": ["x", "y"], "labels": [labs, other] if first else [other, labs], "vk": "f", "base": 0},
                                                                 "lidx": [{"k": "slice", "v": [b0, b1, step], "box": True}, {"k": "full"}][::1 if first else -1],
                                                                 "pidx": [{"k": "full"}, {"k": "full"}], "rhs": {"rk": "f", "shape": "scalar", "base": 1, "bdim": 0}, "cast": False}
+    # numbers and strings side by side on the right-hand side (ndarray of objects, and the same values as a plain Python list)
+    for vk, cast in (("s", False), ("s", True), ("f", True), ("i", True)):
+        for dims, labels in ((["x"], [[10, 20, 30]]), (["x", "y"], [["a", "b"], [10, 20, 30]])):
+            for sel in ("full", "list"):
+                for as_ in ("ndarray", "list"):
+                    for shape in ("full", "bcast"):
+                        lidx = [{"k": "full"} for _ in dims]
+                        if sel == "list":
+                            lidx[-1] = {"k": "list", "v": [30, 10], "as": "list"}
+                        yield "mixed-right-hand-sides", {"mode": "assign", "spec": {"dims": dims, "labels": labels, "vk": vk, "base": 0}, "lidx": lidx,
+                                                         "pidx": [{"k": "full"} for _ in dims], "rhs": {"rk": "m", "shape": shape, "base": 0, "bdim": 0, "as": as_}, "cast": cast}
     for vk in "bifs":
         for rk, val in ASSIGNED:
             for form in ("cell", "list", "mask", "ndmask", "values"):
